@@ -10,8 +10,17 @@ from hypothesis import strategies as st
 from vf import cases
 
 
+def _snap(x):
+    # values below 1e-9 in magnitude become exact zeros: subnormal-scale data only exercise underflow in the
+    # harness' own relative comparisons (the exact zero, which matters to the code under test, is kept)
+    return 0.0 if abs(x) < 1e-9 else x
+
+
 def f(lo, hi):
-    return st.floats(lo, hi, allow_nan=False, allow_infinity=False)
+    s = st.floats(lo, hi, allow_nan=False, allow_infinity=False)
+    if lo <= 0.0 <= hi and (hi - lo) > 1e-6:
+        s = s.map(_snap)
+    return s
 
 
 def logf(lo_exp, hi_exp):
